@@ -1,12 +1,1091 @@
-//! stub: property C09 has no correspondence harness yet
+//! C09 — app routing picks the first registered match and exposes exactly its parameters.
+//!
+//! One case = one route table + one or more requests (grammar: `lean/ActixModel/Drv/C09.lean`).
+//! The real `App` is built from the table through the public builder API
+//! (`web::scope/resource/route`, `.guard`, `.app_data`, `.default_service`), served through
+//! `test::init_service`/`call_service`; every handler reports its identity, `match_info()`,
+//! `app_data::<Marker>()`, the unprocessed path and `match_pattern()`.
+//!
+//! Oracle (never looks at the Lean model): a small reference router written from the property
+//! sentence (`reference::*`), with its own pattern matcher and its own percent-decoder, plus the
+//! generator's ground truth for requests that were built *from* a route of the table
+//! (`exp=` annotation).
+use std::{collections::HashMap, rc::Rc, sync::Mutex};
+
+use actix_web::{
+    dev::{Service, ServiceResponse},
+    guard::{self, Guard},
+    http::{Method, StatusCode},
+    test, web, App, HttpRequest, HttpResponse, Resource, Scope,
+};
+
 use super::Prop;
-use crate::common::CaseResult;
+use crate::common::{block_on_system, CaseResult, Ctx, Rng, Tier};
+
+const RULE: &str = "case = one route table (scopes nested up to 3 levels, resources with single / multi patterns \
+(static, {name}, {name:\\d+}, tail), App::route sugar, method/header/host/All/Any/Not guards on scopes, resources and \
+routes, per-node app_data markers, default services) and 1..24 requests (methods, Host / x-a headers, paths over an \
+alphabet with %2F %25 %2B %61, empty segments, trailing slashes, query strings); tables: every table of <= 2 top-level \
+nodes over a menu of 6 resource and 4 scope patterns with <= 2 children per scope, plus seeded random tables to depth 3 \
+with requests derived from a route of the table (and mutations of them) and random requests; a request is non-trivial \
+if some service of the table was committed to (a handler, a registered default, a 405, or a non-empty resource path); \
+distinct = distinct (case, output) hashes";
+
+// ---------------------------------------------------------------------------------------------
+// table AST + parser (shared by the real-code builder and the reference router)
+// ---------------------------------------------------------------------------------------------
+
+#[derive(Clone, Debug)]
+pub enum G {
+    Method(String),
+    Header(String, String),
+    Host(String),
+    All(Vec<G>),
+    Any(Vec<G>),
+    Not(Box<G>),
+}
+
+#[derive(Clone, Debug)]
+pub struct RouteT {
+    pub guards: Vec<G>,
+    pub handler: u32,
+}
+
+#[derive(Clone, Debug)]
+pub enum NodeT {
+    Scope { pat: String, guards: Vec<G>, data: Option<u32>, children: Vec<NodeT>, dflt: Option<u32> },
+    Resource { pats: Vec<String>, guards: Vec<G>, data: Option<u32>, routes: Vec<RouteT>, dflt: Option<u32> },
+    /// `App::route(path, route)` / `Scope::route(path, route)`
+    RouteSugar { pat: String, route: RouteT },
+}
+
+#[derive(Clone, Debug)]
+pub struct AppT {
+    pub data: Option<u32>,
+    pub children: Vec<NodeT>,
+    pub dflt: Option<u32>,
+}
+
+#[derive(Clone, Debug)]
+pub struct ReqT {
+    pub method: String,
+    pub target: String,
+    pub headers: Vec<(String, String)>,
+    /// generator ground truth: `exp=<handler>:<k=v,..>` — the leaf the path was built from
+    pub exp: Option<(u32, Vec<(String, String)>)>,
+}
+
+fn atom(s: &str) -> (&str, &str) {
+    let end = s.find([',', ')', '&', '>', '~']).unwrap_or(s.len());
+    (&s[..end], &s[end..])
+}
+
+fn parse_guard(s: &str) -> Option<(G, &str)> {
+    if let Some(r) = s.strip_prefix("A(") {
+        let (gs, r) = parse_guards(r)?;
+        return Some((G::All(gs), r));
+    }
+    if let Some(r) = s.strip_prefix("Y(") {
+        let (gs, r) = parse_guards(r)?;
+        return Some((G::Any(gs), r));
+    }
+    if let Some(r) = s.strip_prefix("N(") {
+        let (g, r) = parse_guard(r)?;
+        return Some((G::Not(Box::new(g)), r.strip_prefix(')')?));
+    }
+    if let Some(r) = s.strip_prefix("M~") {
+        let (m, r) = atom(r);
+        return Some((G::Method(m.to_owned()), r));
+    }
+    if let Some(r) = s.strip_prefix("O~") {
+        let (h, r) = atom(r);
+        return Some((G::Host(h.to_owned()), r));
+    }
+    if let Some(r) = s.strip_prefix("H~") {
+        let (k, r) = atom(r);
+        let (v, r) = atom(r.strip_prefix('~')?);
+        return Some((G::Header(k.to_owned(), v.to_owned()), r));
+    }
+    None
+}
+
+fn parse_guards(mut s: &str) -> Option<(Vec<G>, &str)> {
+    let mut out = Vec::new();
+    loop {
+        let (g, r) = parse_guard(s)?;
+        out.push(g);
+        if let Some(r) = r.strip_prefix(',') {
+            s = r;
+        } else {
+            return Some((out, r.strip_prefix(')')?));
+        }
+    }
+}
+
+fn parse_route(t: &str) -> Option<RouteT> {
+    if let Some(h) = t.strip_prefix("*>") {
+        return Some(RouteT { guards: vec![], handler: h.parse().ok()? });
+    }
+    let mut guards = Vec::new();
+    let mut s = t;
+    loop {
+        let (g, r) = parse_guard(s)?;
+        guards.push(g);
+        if let Some(r) = r.strip_prefix('&') {
+            s = r;
+        } else {
+            return Some(RouteT { guards, handler: r.strip_prefix('>')?.parse().ok()? });
+        }
+    }
+}
+
+#[derive(Default)]
+struct Attrs {
+    guards: Vec<G>,
+    data: Option<u32>,
+    dflt: Option<u32>,
+}
+
+fn parse_attrs<'a>(toks: &[&'a str], i: &mut usize) -> Option<Attrs> {
+    let mut a = Attrs::default();
+    while *i < toks.len() {
+        let t = toks[*i];
+        if let Some(g) = t.strip_prefix("g=") {
+            let (g, r) = parse_guard(g)?;
+            if !r.is_empty() {
+                return None;
+            }
+            a.guards.push(g);
+        } else if let Some(n) = t.strip_prefix("df=") {
+            a.dflt = Some(n.parse().ok()?);
+        } else if let Some(n) = t.strip_prefix("d=") {
+            a.data = Some(n.parse().ok()?);
+        } else {
+            break;
+        }
+        *i += 1;
+    }
+    Some(a)
+}
+
+fn parse_nodes(toks: &[&str], i: &mut usize) -> Option<Vec<NodeT>> {
+    let mut out = Vec::new();
+    loop {
+        let t = *toks.get(*i)?;
+        *i += 1;
+        if t == "}" {
+            return Some(out);
+        } else if let Some(p) = t.strip_prefix("s:") {
+            let a = parse_attrs(toks, i)?;
+            if *toks.get(*i)? != "{" {
+                return None;
+            }
+            *i += 1;
+            let children = parse_nodes(toks, i)?;
+            out.push(NodeT::Scope { pat: p.to_owned(), guards: a.guards, data: a.data, children, dflt: a.dflt });
+        } else if let Some(p) = t.strip_prefix("r:") {
+            let a = parse_attrs(toks, i)?;
+            if *toks.get(*i)? != "(" {
+                return None;
+            }
+            *i += 1;
+            let mut routes = Vec::new();
+            loop {
+                let t = *toks.get(*i)?;
+                *i += 1;
+                if t == ")" {
+                    break;
+                }
+                routes.push(parse_route(t)?);
+            }
+            out.push(NodeT::Resource {
+                pats: p.split('|').map(str::to_owned).collect(),
+                guards: a.guards,
+                data: a.data,
+                routes,
+                dflt: a.dflt,
+            });
+        } else if let Some(p) = t.strip_prefix("t:") {
+            let r = parse_route(toks.get(*i)?)?;
+            *i += 1;
+            out.push(NodeT::RouteSugar { pat: p.to_owned(), route: r });
+        } else {
+            return None;
+        }
+    }
+}
+
+fn parse_app(toks: &[&str]) -> Option<AppT> {
+    if *toks.first()? != "app" {
+        return None;
+    }
+    let mut i = 1;
+    let a = parse_attrs(toks, &mut i)?;
+    if !a.guards.is_empty() || *toks.get(i)? != "{" {
+        return None;
+    }
+    i += 1;
+    let children = parse_nodes(toks, &mut i)?;
+    if i != toks.len() {
+        return None;
+    }
+    Some(AppT { data: a.data, children, dflt: a.dflt })
+}
+
+fn parse_req(toks: &[&str]) -> Option<ReqT> {
+    let mut r = ReqT { method: toks.first()?.to_string(), target: toks.get(1)?.to_string(), headers: vec![], exp: None };
+    for t in &toks[2..] {
+        if let Some(e) = t.strip_prefix("exp=") {
+            let (h, ps) = e.split_once(':')?;
+            let ps = ps
+                .split(',')
+                .filter(|s| !s.is_empty())
+                .map(|kv| kv.split_once('=').map(|(k, v)| (k.to_owned(), v.to_owned())))
+                .collect::<Option<Vec<_>>>()?;
+            r.exp = Some((h.parse().ok()?, ps));
+        } else if let Some((k, v)) = t.split_once('=') {
+            r.headers.push((k.to_owned(), v.to_owned()));
+        }
+    }
+    Some(r)
+}
+
+pub fn parse_case(line: &str) -> Option<(AppT, Vec<ReqT>)> {
+    let toks: Vec<&str> = line.split_ascii_whitespace().collect();
+    let mut parts = toks.split(|t| *t == ";;");
+    let app = parse_app(parts.next()?)?;
+    let reqs = parts.map(parse_req).collect::<Option<Vec<_>>>()?;
+    Some((app, reqs))
+}
+
+// ---------------------------------------------------------------------------------------------
+// the real application
+// ---------------------------------------------------------------------------------------------
+
+struct Marker(u32);
+
+fn leak(s: &str) -> &'static str {
+    static TABLE: Mutex<Option<HashMap<String, &'static str>>> = Mutex::new(None);
+    let mut t = TABLE.lock().unwrap();
+    let t = t.get_or_insert_with(HashMap::new);
+    if let Some(v) = t.get(s) {
+        return v;
+    }
+    let v: &'static str = Box::leak(s.to_owned().into_boxed_str());
+    t.insert(s.to_owned(), v);
+    v
+}
+
+fn mk_guard(g: &G) -> Rc<dyn Guard> {
+    match g {
+        G::Method(m) => Rc::new(guard::Method(Method::from_bytes(m.as_bytes()).unwrap())),
+        G::Header(k, v) => Rc::new(guard::Header(leak(k), leak(v))),
+        G::Host(h) => Rc::new(guard::Host(h)),
+        G::All(gs) => {
+            let mut a = guard::All(mk_guard(&gs[0]));
+            for g in &gs[1..] {
+                a = a.and(mk_guard(g));
+            }
+            Rc::new(a)
+        }
+        G::Any(gs) => {
+            let mut a = guard::Any(mk_guard(&gs[0]));
+            for g in &gs[1..] {
+                a = a.or(mk_guard(g));
+            }
+            Rc::new(a)
+        }
+        G::Not(g) => Rc::new(guard::Not(mk_guard(g))),
+    }
+}
+
+/// what a handler sees of the request
+fn report(who: &str, req: &HttpRequest, with_pattern: bool) -> String {
+    let mi: Vec<String> = req.match_info().iter().map(|(k, v)| format!("{k}={v}")).collect();
+    let d = req.app_data::<Marker>().map(|m| m.0.to_string()).unwrap_or_else(|| "-".into());
+    let mp = if with_pattern { req.match_pattern().unwrap_or_else(|| "?".into()) } else { "-".into() };
+    format!("{who} mi=[{}] un={} d={} mp={}", mi.join(","), req.match_info().unprocessed(), d, mp)
+}
+
+fn mk_route(r: &RouteT) -> actix_web::Route {
+    let mut route = web::route();
+    for g in &r.guards {
+        route = route.guard(mk_guard(g));
+    }
+    let id = r.handler;
+    route.to(move |req: HttpRequest| {
+        let body = report(&format!("h{id}"), &req, true);
+        async move { HttpResponse::Ok().body(body) }
+    })
+}
+
+fn mk_default(id: u32) -> actix_web::Route {
+    web::to(move |req: HttpRequest| {
+        let body = report(&format!("df{id}"), &req, false);
+        async move { HttpResponse::Ok().body(body) }
+    })
+}
+
+fn mk_resource(pats: &[String], guards: &[G], data: Option<u32>, routes: &[RouteT], dflt: Option<u32>) -> Resource {
+    let mut r = if pats.len() == 1 { web::resource(pats[0].as_str()) } else { web::resource(pats.to_vec()) };
+    for g in guards {
+        r = r.guard(mk_guard(g));
+    }
+    if let Some(d) = data {
+        r = r.app_data(Marker(d));
+    }
+    for rt in routes {
+        r = r.route(mk_route(rt));
+    }
+    if let Some(d) = dflt {
+        r = r.default_service(mk_default(d));
+    }
+    r
+}
+
+fn mk_scope(pat: &str, guards: &[G], data: Option<u32>, children: &[NodeT], dflt: Option<u32>) -> Scope {
+    let mut s = web::scope(pat);
+    for g in guards {
+        s = s.guard(mk_guard(g));
+    }
+    if let Some(d) = data {
+        s = s.app_data(Marker(d));
+    }
+    for c in children {
+        s = match c {
+            NodeT::Scope { pat, guards, data, children, dflt } => s.service(mk_scope(pat, guards, *data, children, *dflt)),
+            NodeT::Resource { pats, guards, data, routes, dflt } => s.service(mk_resource(pats, guards, *data, routes, *dflt)),
+            NodeT::RouteSugar { pat, route } => s.route(pat, mk_route(route)),
+        };
+    }
+    if let Some(d) = dflt {
+        s = s.default_service(mk_default(d));
+    }
+    s
+}
+
+async fn run_impl(app: &AppT, reqs: &[ReqT]) -> Vec<String> {
+    let mut a = App::new();
+    if let Some(d) = app.data {
+        a = a.app_data(Marker(d));
+    }
+    for c in &app.children {
+        a = match c {
+            NodeT::Scope { pat, guards, data, children, dflt } => a.service(mk_scope(pat, guards, *data, children, *dflt)),
+            NodeT::Resource { pats, guards, data, routes, dflt } => a.service(mk_resource(pats, guards, *data, routes, *dflt)),
+            NodeT::RouteSugar { pat, route } => a.route(pat, mk_route(route)),
+        };
+    }
+    if let Some(d) = app.dflt {
+        a = a.default_service(mk_default(d));
+    }
+    let srv = test::init_service(a).await;
+    let mut outs = Vec::new();
+    for r in reqs {
+        let Ok(method) = Method::from_bytes(r.method.as_bytes()) else {
+            outs.push("bad-request".to_owned());
+            continue;
+        };
+        if r.target.parse::<actix_web::http::Uri>().is_err() {
+            outs.push("bad-request".to_owned());
+            continue;
+        }
+        let mut tr = test::TestRequest::default().method(method).uri(&r.target);
+        for (k, v) in &r.headers {
+            tr = tr.append_header((k.as_str(), v.as_str()));
+        }
+        let resp: ServiceResponse = match srv.call(tr.to_request()).await {
+            Ok(r) => r,
+            Err(e) => {
+                outs.push(format!("error:{}", e.as_response_error().status_code().as_u16()));
+                continue;
+            }
+        };
+        let status = resp.status();
+        let out = if status == StatusCode::OK {
+            let body = test::read_body(resp).await;
+            String::from_utf8_lossy(&body).into_owned()
+        } else {
+            // built-in default services: read the request state they were called with
+            report(&status.as_u16().to_string(), resp.request(), false)
+        };
+        outs.push(out);
+    }
+    outs
+}
+
+// ---------------------------------------------------------------------------------------------
+// reference router: the property sentence, executed naively
+// ---------------------------------------------------------------------------------------------
+
+mod reference {
+    use super::{AppT, NodeT, ReqT, G};
+
+    #[derive(Debug, PartialEq, Eq, Clone)]
+    pub struct Outcome {
+        pub who: String,
+        pub params: Vec<(String, String)>,
+        pub rest: String,
+        pub data: Option<u32>,
+    }
+
+    /// percent-decode everything except the escapes of `%`, `/`, `+` (these stay as written)
+    pub fn decode(path: &str) -> String {
+        let b = path.as_bytes();
+        let mut out = Vec::new();
+        let mut i = 0;
+        while i < b.len() {
+            if b[i] == b'%' && i + 2 < b.len() {
+                let hex = std::str::from_utf8(&b[i + 1..i + 3]).ok().and_then(|h| u8::from_str_radix(h, 16).ok());
+                // from_str_radix accepts a leading '+': exclude by checking both are hex digits
+                let both_hex = b[i + 1].is_ascii_hexdigit() && b[i + 2].is_ascii_hexdigit();
+                if let (Some(v), true) = (hex, both_hex) {
+                    if v != b'%' && v != b'/' && v != b'+' {
+                        out.push(v);
+                        i += 3;
+                        continue;
+                    }
+                }
+            }
+            out.push(b[i]);
+            i += 1;
+        }
+        String::from_utf8_lossy(&out).into_owned()
+    }
+
+    enum Piece {
+        Text(String),
+        /// one path segment (non-empty, no '/')
+        Seg(String),
+        /// non-empty run of digits
+        Digits(String),
+        /// everything that is left
+        Tail(String),
+    }
+
+    fn pieces(pat: &str) -> Vec<Piece> {
+        let mut out = Vec::new();
+        let mut rest = pat;
+        while let Some(open) = rest.find('{') {
+            if open > 0 {
+                out.push(Piece::Text(rest[..open].to_owned()));
+            }
+            let close = open + rest[open..].find('}').expect("closing brace");
+            let inner = &rest[open + 1..close];
+            rest = &rest[close + 1..];
+            let (name, re) = match inner.split_once(':') {
+                Some((n, r)) => (n, Some(r)),
+                None => (inner, None),
+            };
+            if rest == "*" {
+                out.push(Piece::Tail(name.to_owned()));
+                rest = "";
+            } else {
+                out.push(match re {
+                    None => Piece::Seg(name.to_owned()),
+                    Some(r"\d+") => Piece::Digits(name.to_owned()),
+                    Some(".*") => Piece::Tail(name.to_owned()),
+                    Some(other) => panic!("reference router: unsupported regex {other}"),
+                });
+            }
+        }
+        if !rest.is_empty() {
+            out.push(Piece::Text(rest.to_owned()));
+        }
+        out
+    }
+
+    /// does `pat` match a prefix of `path` that ends at a segment boundary (or all of it when
+    /// `whole`)? Returns the matched length and the parameter values.
+    pub fn match_pattern(pat: &str, whole: bool, path: &str) -> Option<(usize, Vec<(String, String)>)> {
+        let mut at = 0usize;
+        let mut params = Vec::new();
+        let mut tail = false;
+        for p in pieces(pat) {
+            let rest = &path[at..];
+            match p {
+                Piece::Text(t) => {
+                    if !rest.starts_with(&t) {
+                        return None;
+                    }
+                    at += t.len();
+                }
+                Piece::Seg(name) => {
+                    let n = rest.find('/').unwrap_or(rest.len());
+                    if n == 0 {
+                        return None;
+                    }
+                    params.push((name, rest[..n].to_owned()));
+                    at += n;
+                }
+                Piece::Digits(name) => {
+                    let n = rest.bytes().take_while(u8::is_ascii_digit).count();
+                    if n == 0 {
+                        return None;
+                    }
+                    params.push((name, rest[..n].to_owned()));
+                    at += n;
+                }
+                Piece::Tail(name) => {
+                    params.push((name, rest.to_owned()));
+                    at = path.len();
+                    tail = true;
+                }
+            }
+        }
+        let rest = &path[at..];
+        let at_boundary = rest.is_empty() || (!whole && rest.starts_with('/'));
+        (tail || at_boundary).then_some((at, params))
+    }
+
+    fn with_slash(p: &str) -> String {
+        if p.is_empty() || p.starts_with('/') {
+            p.to_owned()
+        } else {
+            format!("/{p}")
+        }
+    }
+
+    fn header<'a>(req: &'a ReqT, name: &str) -> Option<&'a str> {
+        req.headers.iter().find(|(k, _)| k.eq_ignore_ascii_case(name)).map(|(_, v)| v.as_str())
+    }
+
+    pub fn holds(g: &G, req: &ReqT) -> bool {
+        match g {
+            G::Method(m) => req.method == *m,
+            G::Header(k, v) => header(req, k) == Some(v.as_str()),
+            G::Host(h) => header(req, "host").map(|v| v.split(':').next().unwrap_or("")) == Some(h.as_str()),
+            G::All(gs) => gs.iter().all(|g| holds(g, req)),
+            G::Any(gs) => gs.iter().any(|g| holds(g, req)),
+            G::Not(g) => !holds(g, req),
+        }
+    }
+
+    struct Ctx<'a> {
+        req: &'a ReqT,
+        path: &'a str,
+    }
+
+    /// the services registered in `nodes`, searched in registration order; `None` = nobody matched
+    fn search(
+        cx: &Ctx<'_>,
+        nodes: &[NodeT],
+        at: usize,
+        params: &[(String, String)],
+        data: Option<u32>,
+        nearest_default: &str,
+    ) -> Option<Outcome> {
+        for n in nodes {
+            let rest = &cx.path[at..];
+            match n {
+                NodeT::Scope { pat, guards, data: d, children, dflt } => {
+                    let Some((len, ps)) = match_pattern(&with_slash(pat), false, rest) else { continue };
+                    if !guards.iter().all(|g| holds(g, cx.req)) {
+                        continue;
+                    }
+                    // committed: everything below is decided inside this scope
+                    let mut params = params.to_vec();
+                    params.extend(ps);
+                    let data = d.or(data);
+                    let own = dflt.map(|d| format!("df{d}"));
+                    let nearest = own.as_deref().unwrap_or(nearest_default);
+                    return Some(search(cx, children, at + len, &params, data, nearest).unwrap_or_else(|| Outcome {
+                        who: nearest.to_owned(),
+                        params,
+                        rest: cx.path[at + len..].to_owned(),
+                        data,
+                    }));
+                }
+                NodeT::Resource { pats, guards, data: d, routes, dflt } => {
+                    let Some((len, ps)) = pats.iter().find_map(|p| match_pattern(&with_slash(p), true, rest)) else {
+                        continue;
+                    };
+                    if !guards.iter().all(|g| holds(g, cx.req)) {
+                        continue;
+                    }
+                    let mut params = params.to_vec();
+                    params.extend(ps);
+                    let who = match routes.iter().find(|r| r.guards.iter().all(|g| holds(g, cx.req))) {
+                        Some(r) => format!("h{}", r.handler),
+                        None => dflt.map(|d| format!("df{d}")).unwrap_or_else(|| "405".to_owned()),
+                    };
+                    return Some(Outcome { who, params, rest: cx.path[at + len..].to_owned(), data: d.or(data) });
+                }
+                NodeT::RouteSugar { pat, route } => {
+                    let Some((len, ps)) = match_pattern(&with_slash(pat), true, rest) else { continue };
+                    if !route.guards.iter().all(|g| holds(g, cx.req)) {
+                        continue;
+                    }
+                    let mut params = params.to_vec();
+                    params.extend(ps);
+                    return Some(Outcome {
+                        who: format!("h{}", route.handler),
+                        params,
+                        rest: cx.path[at + len..].to_owned(),
+                        data,
+                    });
+                }
+            }
+        }
+        None
+    }
+
+    pub fn route(app: &AppT, req: &ReqT) -> Outcome {
+        let raw = req.target.split('?').next().unwrap_or("");
+        let path = decode(raw);
+        let cx = Ctx { req, path: &path };
+        let app_default = app.dflt.map(|d| format!("df{d}")).unwrap_or_else(|| "404".to_owned());
+        search(&cx, &app.children, 0, &[], app.data, &app_default).unwrap_or_else(|| Outcome {
+            who: app_default.clone(),
+            params: vec![],
+            rest: path.clone(),
+            data: app.data,
+        })
+    }
+}
+
+/// all guards on the way to handler `h` (scope, resource and route guards), if `h` is in the table
+fn guards_to(nodes: &[NodeT], h: u32) -> Option<Vec<G>> {
+    for n in nodes {
+        match n {
+            NodeT::Scope { guards, children, .. } => {
+                if let Some(mut gs) = guards_to(children, h) {
+                    gs.extend(guards.iter().cloned());
+                    return Some(gs);
+                }
+            }
+            NodeT::Resource { guards, routes, .. } => {
+                if let Some(r) = routes.iter().find(|r| r.handler == h) {
+                    let mut gs = guards.clone();
+                    gs.extend(r.guards.iter().cloned());
+                    return Some(gs);
+                }
+            }
+            NodeT::RouteSugar { route, .. } => {
+                if route.handler == h {
+                    return Some(route.guards.clone());
+                }
+            }
+        }
+    }
+    None
+}
+
+/// parse an implementation output line back into its fields
+fn parse_out(o: &str) -> Option<reference::Outcome> {
+    let mut it = o.split(' ');
+    let who = it.next()?.to_owned();
+    let mi = it.next()?.strip_prefix("mi=[")?.strip_suffix(']')?;
+    let params = mi
+        .split(',')
+        .filter(|s| !s.is_empty())
+        .map(|kv| kv.split_once('=').map(|(k, v)| (k.to_owned(), v.to_owned())))
+        .collect::<Option<Vec<_>>>()?;
+    let rest = it.next()?.strip_prefix("un=")?.to_owned();
+    let d = it.next()?.strip_prefix("d=")?;
+    let data = if d == "-" { None } else { Some(d.parse().ok()?) };
+    Some(reference::Outcome { who, params, rest, data })
+}
+
+fn is_default_like(who: &str) -> bool {
+    who.starts_with("df") || who == "404"
+}
+
+fn run(line: &str) -> CaseResult {
+    let Some((app, reqs)) = parse_case(line) else {
+        return CaseResult { output: "bad-table".into(), fail: None, nontrivial: false, tags: vec!["bad-table".into()] };
+    };
+    let outs = block_on_system(run_impl(&app, &reqs));
+    let mut fails: Vec<(String, String)> = Vec::new();
+    let mut tags: Vec<String> = Vec::new();
+    let mut nontrivial = false;
+    for (r, o) in reqs.iter().zip(&outs) {
+        let want = reference::route(&app, r);
+        let Some(got) = parse_out(o) else {
+            fails.push(("unparsable-output".into(), format!("{} {} -> {o}", r.method, r.target)));
+            continue;
+        };
+        let what = format!("{} {} {:?}", r.method, r.target, r.headers);
+        if got.who != want.who {
+            let sig = if want.who == "405" || got.who == "405" {
+                "405"
+            } else if is_default_like(&want.who) && is_default_like(&got.who) {
+                "default-nearest"
+            } else {
+                "first-match"
+            };
+            fails.push((sig.into(), format!("{what}: handled by {} but the first registered match is {}", got.who, want.who)));
+        } else if got.params != want.params {
+            fails.push(("params-exact".into(), format!("{what}: match_info {:?}, route patterns give {:?}", got.params, want.params)));
+        } else if got.data != want.data {
+            fails.push(("data-innermost".into(), format!("{what}: app_data {:?}, innermost registration is {:?}", got.data, want.data)));
+        } else if got.rest != want.rest {
+            fails.push(("unprocessed".into(), format!("{what}: unprocessed {:?} want {:?}", got.rest, want.rest)));
+        }
+        // generator ground truth: the path was built from the route to handler `h` with these values;
+        // it must be served by that handler with exactly these values, or by a service registered earlier
+        if let Some((h, ps)) = r.exp.as_ref().filter(|(h, _)| guards_to(&app.children, *h).is_some_and(|gs| gs.iter().all(|g| reference::holds(g, r)))) {
+            if got.who == format!("h{h}") {
+                if got.params != *ps {
+                    fails.push(("params-exact".into(), format!("{what}: built from values {:?}, handler saw {:?}", ps, got.params)));
+                }
+            } else if got.who.starts_with('h') {
+                let gh: u32 = got.who[1..].parse().unwrap_or(u32::MAX);
+                // handler ids are assigned in registration (depth-first) order by the generator
+                if gh > *h {
+                    fails.push(("first-match".into(), format!("{what}: built for h{h}, served by later-registered {}", got.who)));
+                }
+            }
+        }
+        if got.who.starts_with('h') {
+            nontrivial = true;
+            tags.push("handler".into());
+            if !got.params.is_empty() {
+                tags.push("with-params".into());
+            }
+        } else if got.who.starts_with("df") {
+            nontrivial = true;
+            tags.push("default-service".into());
+        } else if got.who == "405" {
+            nontrivial = true;
+            tags.push("405".into());
+        } else {
+            tags.push("404".into());
+            if got.rest.len() < reference::decode(r.target.split('?').next().unwrap_or("")).len() {
+                nontrivial = true;
+                tags.push("404-inside-scope".into());
+            }
+        }
+        if got.data.is_some() {
+            tags.push("data".into());
+        }
+        if r.target.contains('%') {
+            tags.push("pct-path".into());
+        }
+        if r.target.contains("//") || r.target.ends_with('/') {
+            tags.push("empty-segment".into());
+        }
+    }
+    tags.sort();
+    tags.dedup();
+    CaseResult { output: outs.join(" | "), fail: fails.into_iter().next(), nontrivial, tags }
+}
+
+// ---------------------------------------------------------------------------------------------
+// generator
+// ---------------------------------------------------------------------------------------------
+
+const LEAF_MENU: &[&str] = &["/x", "", "/", "/{id}", "/{t}*", "x"];
+const SCOPE_MENU: &[&str] = &["/a", "", "/a/", "/{p}"];
+
+const PROBES: &[&str] = &[
+    "/", "/x", "/x/", "//x", "/a", "/a/", "/a/x", "/a//x", "/a//", "/a/x/", "/ax", "/a/5", "/5", "/5/x", "/5//x", "/x/x",
+    "/a%2Fx", "/%61/x", "/a/a/x", "/a/%78", "/x%2F", "/a/x%25", "/a/a", "/x?q=/a",
+];
+
+struct Ids {
+    next: u32,
+}
+impl Ids {
+    fn fresh(&mut self) -> u32 {
+        self.next += 1;
+        self.next
+    }
+}
+
+fn exhaustive_small(cases: &mut Vec<String>) {
+    // level-2 nodes: a leaf, or a scope with 0..2 leaf children
+    let mut nodes: Vec<Vec<String>> = Vec::new(); // token lists with `#` as handler placeholder
+    for l in LEAF_MENU {
+        nodes.push(vec![format!("r:{l}"), "(".into(), "*>#".into(), ")".into()]);
+    }
+    for s in SCOPE_MENU {
+        let mut kid_lists: Vec<Vec<&str>> = vec![vec![]];
+        for a in LEAF_MENU {
+            kid_lists.push(vec![a]);
+            for b in LEAF_MENU {
+                kid_lists.push(vec![a, b]);
+            }
+        }
+        for kids in kid_lists {
+            let mut t = vec![format!("s:{s}"), "{".into()];
+            for k in kids {
+                t.extend([format!("r:{k}"), "(".into(), "*>#".into(), ")".into()]);
+            }
+            t.push("}".into());
+            nodes.push(t);
+        }
+    }
+    let reqs: String = PROBES.iter().map(|p| format!(" ;; GET {p}")).collect();
+    let render = |tops: &[&Vec<String>]| {
+        let mut n = 0;
+        let mut s = String::from("app {");
+        for t in tops {
+            for tok in t.iter() {
+                s.push(' ');
+                if tok == "*>#" {
+                    n += 1;
+                    s.push_str(&format!("*>{n}"));
+                } else {
+                    s.push_str(tok);
+                }
+            }
+        }
+        s.push_str(" }");
+        s.push_str(&reqs);
+        s
+    };
+    for a in &nodes {
+        cases.push(render(&[a]));
+    }
+    for a in &nodes {
+        for b in &nodes {
+            cases.push(render(&[a, b]));
+        }
+    }
+}
+
+const R_SCOPE_PATS: &[&str] = &["/a", "a", "/a/", "", "/", "/{p}", "/a/{p}", "/{p:\\d+}", "/a/b", "/b"];
+const R_LEAF_PATS: &[&str] = &[
+    "/x", "x", "", "/", "/{id}", "/{id}/x", "/x/{id:\\d+}", "/{t}*", "/f/{t:.*}", "/a", "/a/x", "/x/", "/x|/y/{id}", "/{id}|/x",
+    "/v{id}", "/{a}/{b}", "/b",
+];
+const R_GUARDS: &[&str] =
+    &["M~GET", "M~POST", "H~x-a~1", "O~ex1", "N(M~GET)", "Y(M~GET,M~POST)", "A(M~GET,H~x-a~1)", "N(Y(M~PUT,H~x-a~2))"];
+const R_ROUTE_GUARDS: &[&str] = &["*", "*", "M~GET", "M~POST", "M~GET&H~x-a~1", "Y(M~PUT,M~POST)", "N(M~GET)", "O~ex1"];
+const SEG_VALUES: &[&str] = &["5", "ab", "a%2Fb", "%61", "1%2B", "%25", "x", "12", "a.b", "a+b", "%41%42"];
+const RAND_SEGS: &[&str] =
+    &["a", "b", "x", "y", "f", "5", "12", "", "a%2Fx", "%61", "%2f", "%25", "%2B", "v7", "%", "%4", "%zz", "a+b", "%2561", "x%2Fx"];
+
+/// a route of the table: list of (registered pattern, is_scope) down to a handler id
+#[derive(Clone)]
+struct Leaf {
+    pats: Vec<String>,
+    handler: u32,
+    /// usable as ground truth (first pattern of a multi-pattern resource only)
+    truth: bool,
+}
+
+fn gen_guard_attr(rng: &mut Rng, out: &mut String, p_num: usize) {
+    if rng.chance(p_num, 10) {
+        out.push_str(&format!(" g={}", rng.pick(R_GUARDS)));
+        if rng.chance(1, 6) {
+            out.push_str(&format!(" g={}", rng.pick(R_GUARDS)));
+        }
+    }
+}
+
+fn gen_nodes(rng: &mut Rng, ids: &mut Ids, depth: usize, prefix: &[String], out: &mut String, leaves: &mut Vec<Leaf>) {
+    let n = if depth == 0 { rng.range(1, 4) } else { rng.range(0, 3) };
+    for _ in 0..n {
+        let kind = rng.below(10);
+        if kind < 3 && depth < 2 {
+            let p = *rng.pick(R_SCOPE_PATS);
+            out.push_str(&format!(" s:{p}"));
+            gen_guard_attr(rng, out, 2);
+            if rng.chance(1, 3) {
+                out.push_str(&format!(" d={}", ids.fresh()));
+            }
+            let df = rng.chance(1, 3).then(|| ids.fresh());
+            if let Some(d) = df {
+                out.push_str(&format!(" df={d}"));
+            }
+            out.push_str(" {");
+            let mut pre = prefix.to_vec();
+            pre.push(with_slash(p));
+            gen_nodes(rng, ids, depth + 1, &pre, out, leaves);
+            out.push_str(" }");
+        } else if kind < 4 {
+            let p = *rng.pick(R_LEAF_PATS);
+            let p = p.split('|').next().unwrap();
+            let h = ids.fresh();
+            let g = *rng.pick(R_ROUTE_GUARDS);
+            out.push_str(&format!(" t:{p} {g}>{h}"));
+            let mut pre = prefix.to_vec();
+            pre.push(with_slash(p));
+            leaves.push(Leaf { pats: pre, handler: h, truth: true });
+        } else {
+            let p = *rng.pick(R_LEAF_PATS);
+            out.push_str(&format!(" r:{p}"));
+            gen_guard_attr(rng, out, 2);
+            if rng.chance(1, 4) {
+                out.push_str(&format!(" d={}", ids.fresh()));
+            }
+            if rng.chance(1, 5) {
+                out.push_str(&format!(" df={}", ids.fresh()));
+            }
+            out.push_str(" (");
+            let nr = if rng.chance(1, 12) { 0 } else { rng.range(1, 3) };
+            for _ in 0..nr {
+                let h = ids.fresh();
+                out.push_str(&format!(" {}>{h}", rng.pick(R_ROUTE_GUARDS)));
+                for (k, alt) in p.split('|').enumerate() {
+                    let mut pre = prefix.to_vec();
+                    pre.push(with_slash(alt));
+                    leaves.push(Leaf { pats: pre, handler: h, truth: k == 0 });
+                }
+            }
+            out.push_str(" )");
+        }
+    }
+}
+
+fn with_slash(p: &str) -> String {
+    if p.is_empty() || p.starts_with('/') {
+        p.to_owned()
+    } else {
+        format!("/{p}")
+    }
+}
+
+/// instantiate the patterns of a route with values; returns the raw path and the (decoded)
+/// parameter values a handler has to see
+fn instantiate(rng: &mut Rng, leaf: &Leaf) -> (String, Vec<(String, String)>) {
+    let mut path = String::new();
+    let mut params = Vec::new();
+    for pat in &leaf.pats {
+        let mut rest = pat.as_str();
+        while let Some(open) = rest.find('{') {
+            path.push_str(&rest[..open]);
+            let close = rest.find('}').unwrap();
+            let inner = &rest[open + 1..close];
+            rest = &rest[close + 1..];
+            let (name, re) = inner.split_once(':').map(|(n, r)| (n, Some(r))).unwrap_or((inner, None));
+            let v: String = if rest == "*" || re == Some(".*") {
+                if rest == "*" {
+                    rest = "";
+                }
+                match rng.below(4) {
+                    0 => String::new(),
+                    1 => "p".into(),
+                    2 => "p/q%2Fr/".into(),
+                    _ => "%61/b".into(),
+                }
+            } else if re == Some("\\d+") {
+                (*rng.pick(&["5", "12", "007", "%35"])).into()
+            } else {
+                (*rng.pick(SEG_VALUES)).into()
+            };
+            path.push_str(&v);
+            params.push((name.to_owned(), reference::decode(&v)));
+        }
+        path.push_str(rest);
+    }
+    if path.is_empty() {
+        path.push('/');
+    }
+    (path, params)
+}
+
+fn mutate(rng: &mut Rng, p: &str) -> String {
+    let mut s = p.to_owned();
+    match rng.below(8) {
+        0 => s.push('/'),
+        1 => s.push_str("/zz"),
+        2 => {
+            if let Some(i) = s.rfind('/') {
+                s.insert(i, '/');
+            }
+        }
+        3 => {
+            if let Some(i) = s[1..].find('/') {
+                s.replace_range(i + 1..i + 2, "%2F");
+            }
+        }
+        4 => {
+            if let Some(i) = s.find(|c: char| c.is_ascii_lowercase()) {
+                let c = s.as_bytes()[i];
+                s.replace_range(i..i + 1, &format!("%{c:02X}"));
+            }
+        }
+        5 => {
+            if s.len() > 1 {
+                s.pop();
+            }
+        }
+        6 => s.push_str("?x=/a/b"),
+        _ => s = format!("/{}", s.trim_start_matches('/').replacen('/', "//", 1)),
+    }
+    if !s.starts_with('/') {
+        s.insert(0, '/');
+    }
+    s
+}
+
+fn gen_request(rng: &mut Rng, leaves: &[Leaf]) -> String {
+    let method = *rng.pick(&["GET", "GET", "GET", "POST", "PUT"]);
+    let mut exp = String::new();
+    let target = if !leaves.is_empty() && rng.chance(7, 10) {
+        let leaf = rng.pick(leaves);
+        let (p, ps) = instantiate(rng, leaf);
+        if rng.chance(1, 3) {
+            mutate(rng, &p)
+        } else {
+            // valid only as ground truth when the path is a well-formed URI target
+            if p.starts_with('/') && leaf.truth && leaf.pats.iter().any(|p| !p.is_empty()) {
+                let kv: Vec<String> = ps.iter().map(|(k, v)| format!("{k}={v}")).collect();
+                if kv.iter().all(|s| !s.contains(',') && !s.contains(' ')) {
+                    exp = format!(" exp={}:{}", leaf.handler, kv.join(","));
+                }
+            }
+            p
+        }
+    } else {
+        let n = rng.range(1, 4);
+        let mut s = String::new();
+        for _ in 0..n {
+            s.push('/');
+            s.push_str(*rng.pick(RAND_SEGS));
+        }
+        if rng.chance(1, 6) {
+            s.push('/');
+        }
+        s
+    };
+    let mut r = format!("{method} {target}");
+    if rng.chance(1, 2) {
+        r.push_str(&format!(" host={}", rng.pick(&["ex1", "ex2", "ex1:80", "EX1"])));
+    }
+    if rng.chance(1, 2) {
+        r.push_str(&format!(" x-a={}", rng.pick(&["1", "2"])));
+        if rng.chance(1, 5) {
+            r.push_str(&format!(" x-a={}", rng.pick(&["1", "2"])));
+        }
+    }
+    r.push_str(&exp);
+    r
+}
+
+fn gen(ctx: &Ctx) -> Vec<String> {
+    let mut cases = Vec::new();
+    if ctx.tier != Tier::Burst {
+        exhaustive_small(&mut cases);
+    }
+    let mut rng = Rng::new(ctx.seed);
+    for _ in 0..ctx.budget(6000) {
+        let mut ids = Ids { next: 0 };
+        let mut s = String::from("app");
+        if rng.chance(1, 3) {
+            s.push_str(&format!(" d={}", ids.fresh()));
+        }
+        let df = rng.chance(1, 2).then(|| ids.fresh());
+        if let Some(d) = df {
+            s.push_str(&format!(" df={d}"));
+        }
+        s.push_str(" {");
+        let mut leaves = Vec::new();
+        gen_nodes(&mut rng, &mut ids, 0, &[], &mut s, &mut leaves);
+        s.push_str(" }");
+        let nreq = rng.range(1, 12);
+        for _ in 0..nreq {
+            s.push_str(" ;; ");
+            s.push_str(&gen_request(&mut rng, &leaves));
+        }
+        cases.push(s);
+    }
+    cases
+}
 
 pub fn prop() -> Prop {
-    Prop {
-        rule: "unimplemented",
-        parallel: false,
-        gen: Box::new(|_| Vec::new()),
-        run: Box::new(|_| CaseResult::ok("unimplemented".to_owned())),
-    }
+    Prop { rule: RULE, parallel: true, gen: Box::new(gen), run: Box::new(run) }
 }
